@@ -22,6 +22,14 @@ def rle(cells):
     return [tuple(x) for x in out]
 
 
+def core_fnv(txt):
+    h = 0xcbf29ce484222325
+    for b in txt.encode():
+        h ^= b
+        h = (h * 0x100000001b3) & 0xFFFFFFFFFFFFFFFF
+    return f'{h:016x}'
+
+
 def check_record(rec):
     """Independent oracle on ONE record printed by the implementation:
     canonical form + every observer against the implementation's own unroll.
@@ -43,9 +51,21 @@ def check_record(rec):
             return f'{name} span ends in a blank block: {s}'
     if unroll == 'big':
         return None
-    ul, ur = unroll.split('/')
-    cl = [int(x) for x in ul.split(',')] if ul else []
-    cr = [int(x) for x in ur.split(',')] if ur else []
+    if unroll.startswith('BAD-UNROLL'):
+        return f'unroll() does not have the scanned cell where the left span ends ({unroll})'
+    if unroll.startswith('H'):
+        # long tape: the implementation printed length + FNV-1a of its unroll(); it must be the expansion of the blocks
+        cl = [c for c, n in l for _ in range(n)]
+        cr = [c for c, n in r for _ in range(n)]
+        want = f"H{len(cl)}:{core_fnv(','.join(map(str, cl)))}/{len(cr)}:{core_fnv(','.join(map(str, cr)))}"
+        if unroll != want:
+            return f'unroll() is not the expansion of the blocks: {unroll}, blocks give {want}'
+    else:
+        ul, ur = unroll.split('/')
+        cl = [int(x) for x in ul.split(',')] if ul else []
+        cr = [int(x) for x in ur.split(',')] if ur else []
+        if cl != [c for c, n in l for _ in range(n)] or cr != [c for c, n in r for _ in range(n)]:
+            return f'unroll() is not the expansion of the blocks {tp}: {unroll}'
     def strip(x):
         x = list(x)
         while x and x[-1] == 0:
@@ -102,6 +122,11 @@ def check_eq_answer(ans):
     tb, ub = b.split(' ')
     if ua == 'big' or ub == 'big':
         return None
+    if ua.startswith('H') or ub.startswith('H'):
+        def expand(t):
+            sc, l_s, r_s = t.split('/')
+            return sc + '/' + '/'.join(','.join(str(c) for c, n in parse_span(x) for _ in range(n)) for x in (l_s, r_s))
+        ua, ub = expand(ta).split('/', 1)[1], expand(tb).split('/', 1)[1]
     def strip(x):
         x = [int(v) for v in x.split(',')] if x else []
         while x and x[-1] == 0:
@@ -176,6 +201,37 @@ def cases(seed, tier):
             lb = [(rng.randint(0, 1), rng.randrange(cols), rng.randint(0, 1)) for _ in range(rng.randint(0, 6))]
         out.append((f'e{i}', f'tapeeq|0//|{op_field(la)}|0//|{op_field(lb)}'))
     dist['equality_pairs'] = neq
+    # 5. same cells, different head position: the head inside a run of the scanned colour, moved by j cells
+    #    (after seeded change C12-m7: a hand-written PartialEq comparing scan, span lengths and the cell window)
+    nsh = 1500 if tier == 'quick' else 15000
+    for i in range(nsh):
+        cols = rng.randint(2, 4)
+        c = rng.randrange(cols)
+        a, b = rng.randint(1, 6), rng.randint(1, 6)
+        def rest(avoid):
+            sp = gen.random_span(rng, cols, 3, 5, True)
+            while sp and sp[0][0] == avoid:
+                sp = sp[1:]
+            return sp
+        rl, rr = rest(c), rest(c)
+        j = rng.randint(-(a - 1), b - 1) if rng.random() < 0.8 else 0
+        ta = gen.tape_field(c, [(c, a)] + rl, [(c, b)] + rr)
+        tb = gen.tape_field(c, [(c, a + j)] + rl, [(c, b - j)] + rr)
+        out.append((f'q{i}', f'tapeeq|{ta}||{tb}|'))
+    dist['equality_shifted_head_pairs'] = nsh
+    # 6. long blocks (hundreds to thousands of cells): observers and unroll() on tapes far beyond the 63-cell explicit form
+    #    (after seeded change C12-m6: unroll() capped at 1024 cells per block)
+    nbig = 300 if tier == 'quick' else 3000
+    for i in range(nbig):
+        cols = rng.randint(2, 5)
+        def bigspan():
+            sp = gen.random_span(rng, cols, 4, 9, True)
+            return [(c0, n if rng.random() < 0.5 else rng.choice([64, 100, 1023, 1024, 1025, 2000, 5000])) for c0, n in sp]
+        l, r = bigspan(), bigspan()
+        scan = rng.randrange(cols)
+        seq = [(rng.randint(0, 1), rng.randrange(cols), rng.randint(0, 1)) for _ in range(rng.randint(1, 8))]
+        out.append((f's{nst + i}', f'tape|h|{gen.tape_field(scan, l, r)}|{op_field(seq)}'))
+    dist['long_block_tapes'] = nbig
     return out, dist
 
 
